@@ -272,6 +272,18 @@ SPECIAL_CLASSES = {"MultiReg", "AsyncResetSynchronizer", "Memory", "Instance", "
                    "DDRTristate", "ClkInput", "ClkOutput"}
 
 
+_KNOWN = [False, None]
+
+
+def _known_locals():
+    if _KNOWN[0] is False:
+        from . import names
+        t = names.table()
+        _KNOWN[0] = True
+        _KNOWN[1] = {n for sc in t.values() for nm in sc.values() for n in nm} if t else None
+    return _KNOWN[1]
+
+
 def q_is_path(n):
     if isinstance(n, ast.Name):
         return True
@@ -334,6 +346,8 @@ class FX:
         self.entry_returns = {}
         self.numeric = set()
         self.localdefs = {}
+        self.known_locals = _known_locals()
+        self._params_seen = set()
         self.assigns = []
         self.trans = []
         self.insts = []
@@ -508,6 +522,8 @@ class FX:
         if is_method and params:
             params = params[1:]
         defaults = dict(zip(reversed(params), reversed(a.defaults))) if a.defaults else {}
+        self._params_seen.update(params)
+        self._params_seen.update(p.arg for p in a.kwonlyargs)
         for i, p in enumerate(params):
             if i < len(args):
                 env[p] = args[i]
@@ -798,6 +814,14 @@ class FX:
                 finally:
                     self.loops.pop()
             return None
+        tab = self._dict_items(it, env)
+        if tab is not None and isinstance(st.target, ast.Tuple) and len(st.target.elts) == 2 and \
+                all(isinstance(t, ast.Name) for t in st.target.elts):
+            for k, v in tab:
+                env[st.target.elts[0].id] = k
+                env[st.target.elts[1].id] = v
+                self._exec_block(st.body, env)
+            return None
         self._bind_loop(st.target, it, env)
         self.loops.append((norm(st.target), self.ctext(it, env)))
         try:
@@ -807,6 +831,21 @@ class FX:
         if st.orelse:
             self._exec_block(st.orelse, env)
         return None
+
+    def _dict_items(self, it, env):
+        """`d.items()` of a small Python dict built unconditionally from a literal: [(key ast, value)] to unroll."""
+        if not (isinstance(it, ast.Call) and isinstance(it.func, ast.Attribute) and it.func.attr == "items" and not it.args):
+            return None
+        d = it.func.value
+        v = self._value(d, env) if isinstance(d, (ast.Name, ast.Dict)) else None
+        if not isinstance(v, PyDict) or not (0 < len(v.items) <= 16):
+            return None
+        out = []
+        for key, val, lp, pg in v.items:
+            if lp or pg or not (isinstance(val, ast.Constant) or isinstance(val, ast.Name) and val.id not in env):
+                return None         # only a table of constants is unrolled; a dict of signals keeps its symbolic loop form
+            out.append((ast.Constant(value=key) if isinstance(key, str) else key, val))
+        return out
 
     def _literal_iter(self, it, env):
         """A small literal table to unroll (module-level literal or inline literal of tuples)."""
@@ -920,7 +959,8 @@ class FX:
     def _assign(self, targets, value, env, st):
         val = self._value(value, env, targets=targets, st=st)
         if len(targets) == 1 and isinstance(targets[0], ast.Name) and isinstance(val, ast.AST) and \
-                not isinstance(val, (ast.Name, ast.Constant)) and self._is_numeric(val) and len(norm(val)) > 12:
+                not isinstance(val, (ast.Name, ast.Constant)) and self._is_numeric(val) and len(norm(val)) > 12 and \
+                self._keeps_name(targets[0].id):
             self.numeric.add(targets[0].id)
             self.localdefs[targets[0].id] = val
             val = ast.Name(id=targets[0].id, ctx=ast.Load())
@@ -940,12 +980,19 @@ class FX:
             self.localdefs[targets[0].id] = val
             val = ast.Name(id=targets[0].id, ctx=ast.Load())
         if len(targets) == 1 and isinstance(targets[0], ast.Name) and isinstance(val, ast.AST) and \
-                not isinstance(val, (ast.Name, ast.Constant)) and len(norm(val)) > 90 and targets[0].id not in env:
+                not isinstance(val, (ast.Name, ast.Constant)) and len(norm(val)) > 90 and targets[0].id not in env and \
+                self._keeps_name(targets[0].id):
             # long expression bound to a local: keep the local's name (readable IR), remember the definition
             self.localdefs[targets[0].id] = val
             val = ast.Name(id=targets[0].id, ctx=ast.Load())
         for t in targets:
             self._store(t, val, env, st, value)
+
+    def _keeps_name(self, name):
+        """A local bound to a long / numeric expression keeps its name in the IR only when the name is one the rules were written
+        against (recorded in localnames.json); a local introduced later (extract-variable refactoring) is inlined, so the IR does
+        not depend on it."""
+        return self.known_locals is None or name in self.known_locals or name in self._params_seen
 
     NUMERIC_FUNCS = {"len", "log2_int", "max", "min", "int", "bits_for", "log2", "ceil", "floor", "abs", "round", "layout_len"}
 
@@ -1662,6 +1709,14 @@ class FX:
         env2 = dict(env)
         loops = []
         conds = []
+        if len(e.generators) == 1 and not e.generators[0].ifs:
+            lit = self._literal_iter(e.generators[0].iter, env)
+            if lit is not None:
+                out = []
+                for val in lit:
+                    self._bind_target_const(e.generators[0].target, val, env2)
+                    out += self._stmts(e.elt, env2)
+                return out
         for g in e.generators:
             self._bind_loop(g.target, g.iter, env2)
             loops.append((norm(g.target), self.ctext(g.iter, env2)))
